@@ -34,8 +34,23 @@ fn drive(bytes: &[u8], v: &mut Verdict) -> Result<(), String> {
     let dev = MemDev::with_data(bytes.to_vec());
     let h = dev.handle();
     let served = |h: &MemDev| h.st.borrow().bytes_read;
+    let churn0 = crate::alloc::total();
     let (r, peak) = measure(|| guard(|| E57Reader::new(dev)));
+    let churn = crate::alloc::total() - churn0;
+    if std::env::var("E57_C09_CALIBRATE").is_ok() {
+        use std::io::Write;
+        if let Ok(mut f) = std::fs::OpenOptions::new().append(true).create(true).open(std::env::var("E57_C09_CALIBRATE").unwrap_or_default()) {
+            let _ = f.write_all(format!("{n} {churn} {peak}\n").as_bytes());
+        }
+    }
     check_call("E57Reader::new", n, 0, peak, served(&h))?;
+    // all bytes the call asked the allocator for, however short-lived: a deterministic stand-in for the time spent on
+    // copying (a parser that joins n pieces of text by copying what it has so far allocates n^2 bytes without ever
+    // holding more than 2n). Measured on 100 000 generated inputs: at most 45 x the input size above 100 KB, at most
+    // 270 MB in absolute terms.
+    if churn > (CONST_BYTES as u64) + 512 * n as u64 {
+        return Err(format!("E57Reader::new asked the allocator for {churn} bytes in total; bound for opening is 64 MiB + 512 x input size {n}"));
+    }
     // opening parses the XML into a tree: a few dozen bytes per byte of XML at most
     if peak > CONST_BYTES + 64 * n {
         return Err(format!("E57Reader::new grew the heap by {peak} bytes; bound for opening is 64 MiB + 64 x input size {n}"));
@@ -145,7 +160,7 @@ impl Check for C09 {
          emptied prototypes / containers, huge recordCount, huge lengths and offsets in file / section / packet / blob headers, stream lengths, DOCTYPE entity definitions referenced thousands of times, chains of overlapping packet headers whose declared length is smaller than their streams, thousands of added records, deep \
          nesting). Every iterator is driven to its first Err or None (harness cap: 3e6 / prototype length items, at most 200000) and every blob is \
          extracted, in a worker process with an address space limit and a counting allocator. Deterministic oracles per single call (new, iterator \
-         creation, each next(), each blob()): peak heap growth <= 64 MiB + 1024 x input size (opening: 64 MiB + 64 x input size); bytes read from the device \
+         creation, each next(), each blob()): peak heap growth <= 64 MiB + 1024 x input size (opening: 64 MiB + 64 x input size, and all bytes ever requested from the allocator during opening <= 64 MiB + 512 x input size - a deterministic stand-in for time spent copying); bytes read from the device \
          <= 2 x input size + 64 KiB; an iterator never yields more than recordCount items; blob() returning Ok(k) wrote exactly k <= input size \
          bytes. Backstop: 20 s watchdog per case, confirmed alone with 60 s (confirmed => violation, unconfirmed => exit 2). Non-trivial: \
          script containing a resource-relevant mutation and passing open."
@@ -176,13 +191,13 @@ impl Check for C09 {
             .chain([(500u16, 9_000u32, 70_000u32), (500, 200, 150_000), (100, 30_000, 60_000)].iter().map(|(namespaces, uri_len, records)| Case {
                 script: Script { seed: crate::untrusted::Seed::LongNamespaceRecords { namespaces: *namespaces, uri_len: *uri_len, records: *records }, muts: vec![], reseal: true },
             }))
-            .chain([(400_000u32, 12u16, 0u8), (300_000, 12, 1), (60_000, 1, 1), (2_000, 4000, 0)].iter().map(|(pieces, piece_len, kind)| Case {
+            .chain([(20_000u32, 12u16, 0u8), (20_000, 12, 1), (400_000, 12, 0), (300_000, 12, 1), (60_000, 1, 1), (2_000, 4000, 0)].iter().map(|(pieces, piece_len, kind)| Case {
                 script: Script { seed: crate::untrusted::Seed::SplitText { pieces: *pieces, piece_len: *piece_len, kind: *kind }, muts: vec![], reseal: true },
             }))
             .collect()
     }
     fn describe_fixed(_t: Tier) -> Option<String> {
-        Some("4 hand-built conforming files: a 1-bit record followed by 40 .. 3000 constant records, one data packet with 20 000 .. 440 000 points; 2 hand-built files with 2 000 / 20 000 records and 100 000 / 5 000 000 minimum-size ignored packets; 12 hand-built files whose root declares 300 / 500 / 2 000 namespaces above 100 / 200 000 / 20 000 elements declaring one more, with space, line feed, tab or carriage return between the attributes; 3 hand-built files whose root declares 100 / 500 namespaces with names of 200 .. 30 000 bytes above a prototype of 60 000 .. 150 000 records in the namespace declared last; 4 hand-built files whose GUID string is written as 2 000 .. 400 000 pieces of character data (CDATA sections and text, or CDATA sections joined by carriage return references as the crate's writer splits strings)".into())
+        Some("4 hand-built conforming files: a 1-bit record followed by 40 .. 3000 constant records, one data packet with 20 000 .. 440 000 points; 2 hand-built files with 2 000 / 20 000 records and 100 000 / 5 000 000 minimum-size ignored packets; 12 hand-built files whose root declares 300 / 500 / 2 000 namespaces above 100 / 200 000 / 20 000 elements declaring one more, with space, line feed, tab or carriage return between the attributes; 3 hand-built files whose root declares 100 / 500 namespaces with names of 200 .. 30 000 bytes above a prototype of 60 000 .. 150 000 records in the namespace declared last; 6 hand-built files whose GUID string is written as 2 000 .. 400 000 pieces of character data (CDATA sections and text, or CDATA sections joined by carriage return references as the crate's writer splits strings)".into())
     }
     fn gen(s: &mut Src, _t: Tier) -> Case {
         let mut script = gen_script(s);
